@@ -23,8 +23,8 @@ D1 = {"n": 6, "tag": 141}
 D2 = {"n": 21, "tag": 142}
 K, K2, K3 = "k-main", "k-oneshot", "k-linked"
 
-ACTIONS = ["W1", "W2", "W3", "WH", "WBAD", "WBADI", "WMULTI", "WOTHER", "WHDEC", "R", "RH", "ST", "M", "L", "E", "CP", "CPU", "HL", "RM", "RMH", "RF", "CL", "LK", "DFLIP", "DTRUNC", "DUTF8", "DTORN", "DSHORT", "DBADSRI", "DDIR"]
-MIXED = ["W1", "W2", "WH", "R", "M", "L", "RM", "RF", "DUTF8", "ST", "W3"]
+ACTIONS = ["W1", "W2", "W3", "WH", "WBAD", "WBADI", "WMULTI", "WOTHER", "WHDEC", "W0", "WOVF", "R", "RH", "ST", "M", "L", "E", "CP", "CPU", "HL", "HLDHL", "RM", "RMH", "RF", "CL", "LK", "DFLIP", "DTRUNC", "DUTF8", "DTORN", "DSHORT", "DBADSRI", "DDIR"]
+MIXED = ["W1", "W2", "WH", "R", "M", "L", "RM", "RF", "DUTF8", "ST", "W3", "W0"]
 
 
 def sri(v):
@@ -95,6 +95,15 @@ def do_action(srv, side, cache, aux, act):
         # by-address writer, declared size (memory-mapped path), decreasing chunk lengths
         rep, _ = wr.do_write(srv, cache, side=side, entry="open_hash", algo="sha1", n=10, tag=143, chunks=[4, 3, 3], opts={"size": 10})
         return [rep, srv.call({"op": "read_hash" + suf, "cache": cache, "sri": ref.sri("sha1", ref.gen(10, 143))})]
+    if act == "W0":
+        # the empty value, keyed, over whatever the key holds
+        rep, _ = wr.do_write(srv, cache, side=side, entry="oneshot", key=K, n=0, tag=0)
+        return [rep, srv.call({"op": "read" + suf, "cache": cache, "key": K})]
+    if act == "WOVF":
+        # by-address writer (memory-mapped where the flavour maps) that overflows its declared size in a LATER chunk, with the
+        # bytes of D1: the rejected commit must leave a stored copy of D1 as it was, in every flavour alike
+        rep, _ = wr.do_write(srv, cache, side=side, entry="open_hash", algo="sha256", n=D1["n"], tag=D1["tag"], chunks=[4, 2], opts={"size": 5})
+        return [rep, srv.call({"op": "read_hash" + suf, "cache": cache, "sri": sri(D1)})]
     if act == "WOTHER":
         # a declared integrity under another algorithm than the writer's (correct digest of the data)
         rep, _ = wr.do_write(srv, cache, side=side, entry="open", key=K, algo="sha256", n=D1["n"], tag=D1["tag"], opts={"time": "9", "integrity": ref.sri("sha512", ref.gen(D1["n"], D1["tag"]))})
@@ -124,6 +133,20 @@ def do_action(srv, side, cache, aux, act):
         except OSError:
             pass
         return [rep, {"ok": {"len": -1 if b is None else len(b), "sha256": "" if b is None else ref.sha256hex(b)}}]
+    if act == "HLDHL":
+        # checked hard link, the content damaged IN PLACE (same inode, so the destination shares the damage), linked again
+        fsutil.wipe(dest)
+        r1 = srv.call({"op": "hard_link" + suf, "cache": cache, "key": K, "to": dest})
+        cpath = os.path.join(cache, ref.content_rel(sri(D1)))
+        if os.path.isfile(cpath) and not os.path.islink(cpath):
+            with open(cpath, "r+b") as fh:
+                b = fh.read(1)
+                if b:
+                    fh.seek(0)
+                    fh.write(bytes([b[0] ^ 0x01]))
+        r2 = srv.call({"op": "hard_link" + suf, "cache": cache, "key": K, "to": dest})
+        fsutil.wipe(dest)
+        return [r1, r2]
     if act == "RM":
         return [srv.call({"op": "remove" + suf, "cache": cache, "key": K})]
     if act == "RMH":
@@ -317,7 +340,7 @@ def main(tier, seed=0):
     return run.run_check(PROP, tier, jobs, worker, level="model_checking",
                          rule="lock-step: tree of all programs up to the length bound over %d actions (writes with options / chunked / one-shot / by address / rejected / multi-hash / other-algorithm integrity, reads and lookups, extractions, removals, link_to, %d damage steps), " % (len(ACTIONS), sum(1 for a in ACTIONS if a.startswith("D"))) +
                               "executed on three caches by the three flavour builds, node = triple of decoded trees (de-duplicated), every step compares the normalised replies and the decoded "
-                              "trees pairwise with the sync flavour; mixed: every program up to its bound over 11 actions x every flavour assignment phi in {S,A,T}^len on one shared cache, "
+                              "trees pairwise with the sync flavour; mixed: every program up to its bound over %d actions" % len(MIXED) + " x every flavour assignment phi in {S,A,T}^len on one shared cache, "
                               "compared with the pure-sync run; states = distinct state triples, evaluations = program steps / assignments executed",
                          technique="differential lock-step exploration of the three implementations against each other (explicit-state, de-duplicated on state triples)",
                          assumptions=["error messages and path contexts are not compared, only variant and io kind", "wall-clock and tombstone times are normalised",
